@@ -34,7 +34,7 @@ def extract(ck):
 
 
 def run(ck):
-    import numpy
+    import numpy, math
     qr = import_quantarhei()
     from quantarhei.spectroscopy import twod2
     ck.rule = ("random histories (<=40 ops) of _add_data at all five levels with tags, set_resolution (incl. inadmissible), "
@@ -60,8 +60,10 @@ def run(ck):
         """wire token of a pathway tag (None -> '-', '' -> 'EMPTY'); falsy tags 0 and '' are legal tags"""
         return "-" if tag is None else ("EMPTY" if tag == "" else str(tag))
 
+    mag = [1.0]                   # overall magnitude of the data of the history being run (a power of two: sums stay exact)
+
     def arr(v):
-        return v * cur_base[0].copy()
+        return v * mag[0] * cur_base[0].copy()
 
     def dec(a):
         if a is None:
@@ -70,6 +72,7 @@ def run(ck):
         base = cur_base[0]
         if a.shape != base.shape:
             return "shape%s" % (a.shape,)
+        a = a / mag[0]
         v = a[0, 0]
         if not numpy.array_equal(a, v * base) or v.imag != 0 or v.real != int(v.real):
             return "corrupt"
@@ -100,6 +103,8 @@ def run(ck):
         cur_base[0] = base0 if shp == (2, 2) else (numpy.arange(1, shp[0] * shp[1] + 1, dtype=complex).reshape(shp) + (numpy.arange(shp[0] * shp[1]).reshape(shp) % 2))
         r.set_axis_1(qr.FrequencyAxis(0.0, shp[0], 1.0))
         r.set_axis_3(qr.FrequencyAxis(0.0, shp[1], 1.0))
+        mag[0] = (1.0, 2.0 ** -40, 1.0, 2.0 ** -60, 2.0 ** 30)[(h // 7) % 5] if h % 7 == 3 else 1.0     # responses of any magnitude, e.g. 1e-12
+        ck.dist["data magnitude 2^%d" % int(math.log2(mag[0]))] += 1
         hist_starts.append(len(lines))
         lines.append("new"); impl.append("ok")
         accepted = []   # (level, name, tag, v)
@@ -123,7 +128,7 @@ def run(ck):
                 if lev == 4:
                     tag = rng.choice(["a", "b", "c", "d", "e", 0, ""]) if rng.random() < 0.92 else None
                 else:
-                    tag = None if rng.random() < 0.93 else "a"
+                    tag = None if rng.random() < 0.85 else "a"
                 v = rng.randint(-9, 9)
                 before = dump(r)
                 try:
@@ -167,6 +172,19 @@ def run(ck):
                 op = "read %s %s" % (name, tk(tag))
             hist.append(op)
             lines.append(op); impl.append(out)
+            if h % 6 == 4 and i % 5 == 3 and r.storage_initialized:
+                # a shallow copy (e.g. made for plotting) reduced on its own: the response it was copied from still holds what was added
+                import copy as _copy
+                before = dump(r)
+                try:
+                    r2 = _copy.copy(r) if (h // 6) % 2 else r.copy()
+                    r2.set_resolution(ress[max(0, ress.index(r2.storage_resolution) - 1 - (i % 2))])
+                except Exception:
+                    pass
+                if dump(r) != before:
+                    ck.fail("copy-reduced:original-changed", "reducing the resolution of a copy changed the storage of the response it was copied from",
+                            {"history": list(hist), "then": "copy; copy.set_resolution(lower)"}, dump(r), before)
+                    break
             if not op.startswith("read"):
                 lines.append("dump"); impl.append(dump(r))
             # ---- direct oracle: the property on the implementation
